@@ -282,6 +282,12 @@ def correspondence(ctx):
         polygon_stream(ctx, 45, False)
     segment_stream(ctx, ctx.budget(200, 3000))
     collection_stream(ctx, ctx.budget(60, 600))
+    import colllib
+    colllib.run(ctx, ctx.budget(200, 2500), prefix="C16",
+                only={"polygon3.area-then-contains", "polygon3.contains", "segment.contains", "segment3.contains", "triangle.contains"})
+    # membership does not depend on the representatives of the vertices / of the point (vertex-wise factors of both signs)
+    from props import c03
+    c03.directed(ctx, prefix="C16")
 
 
 def replay(ctx, rec):
